@@ -904,6 +904,69 @@ def r14f(ctx):
                            f"are selected as well (and deleted or modified by what follows), e.g. 'Pictures/ab' also takes 'Pictures/ab.png'")
 
 
+_FIXTURE_G = '''
+def bad_digits(self, table: int | str):
+    if isinstance(table, str) and table.strip().isdigit():
+        table = int(table)
+    return self.body.get_table(position=table) if isinstance(table, int) else self.body.get_table(name=table)
+def bad_try(self, table: str | int):
+    try:
+        return self.body.get_table(position=int(table))
+    except ValueError:
+        return self.body.get_table(name=table)
+def ok_type(self, table: int | str):
+    if isinstance(table, int):
+        return self.body.get_table(position=table)
+    return self.body.get_table(name=table)
+'''
+
+
+def _content_dispatch(fn):
+    """uses of a `str | int` parameter that look at what the string contains to decide whether it is a number"""
+    out = []
+    for a in fn.args.posonlyargs + fn.args.args + fn.args.kwonlyargs:
+        if a.annotation is None:
+            continue
+        parts_ = {x.strip() for x in ast.unparse(a.annotation).replace("Optional[", "").replace("]", "").split("|")}
+        if not {"str", "int"} <= parts_:
+            continue
+        for x in ast.walk(fn):
+            if isinstance(x, ast.Call) and isinstance(x.func, ast.Attribute) and x.func.attr in ("isdigit", "isnumeric", "isdecimal") \
+                    and any(isinstance(y, ast.Name) and y.id == a.arg for y in ast.walk(x.func.value)):
+                out.append((a.arg, x))
+            if isinstance(x, ast.Call) and isinstance(x.func, ast.Name) and x.func.id == "int" and x.args and any(isinstance(y, ast.Name) and y.id == a.arg for y in ast.walk(x.args[0])):
+                out.append((a.arg, x))
+    return out
+
+
+def r14g(ctx):
+    """A name that looks like a number is still a name.
+
+    Several entry points take "name or index" (`table: str | int`).  Which one it is, is decided by the *type* of the argument: "2024",
+    "1" and "007" are sheet names the API accepts.  A dispatch on the content of the string (isdigit(), int() with a fallback) looks such
+    a sheet up by position: another sheet answers, or none.  Rule (expected count 0; fixture on every run): a parameter declared
+    `str | int` is never tested with isdigit/isnumeric/isdecimal nor converted with int() — value setters excepted.
+    """
+    repo = ctx.repo
+    ctx.rule("R14g", "a `str | int` name-or-index parameter is told apart by its type, never by the digits it contains", floor=20)
+    tree = ast.parse(_FIXTURE_G)
+    got = {fn.name: len(_content_dispatch(fn)) for fn in tree.body}
+    if not (got["bad_digits"] >= 1 and got["bad_try"] >= 1 and got["ok_type"] == 0):
+        raise AnalysisError(f"R14g fixture: content-dispatch detector broken: {got}")
+    for f in repo.all_funcs():
+        if f.kind in ("setter", "nested") or "/scripts/" in f.file:
+            continue
+        ann = [a for a in f.all_params() if a.annotation is not None and {"str", "int"} <= {x.strip() for x in ast.unparse(a.annotation).split("|")}]
+        if not ann:
+            continue
+        bad = _content_dispatch(f.node)
+        ctx.instance("R14g", f"{f.file}:{f.ident}", f"{[a.arg for a in ann]} told apart by type", ok=not bad, nontrivial=bool(bad), line=f.node.lineno)
+        for nm, x in bad[:1]:
+            ctx.report("R14g", f, x, f"{norm(x, 50)} on `{nm}`",
+                       f"{f.ident} decides whether `{nm}` is an index by looking at its characters (`{norm(x, 40)}`): an object whose name consists of digits (\"2024\", \"1\") is "
+                       f"looked up by position instead — another object is returned, or none, although it was stored under that name")
+
+
 def run(ctx):
     r14a(ctx)
     r14c(ctx)
@@ -911,6 +974,7 @@ def run(ctx):
     r14d(ctx)
     r14e(ctx)
     r14f(ctx)
+    r14g(ctx)
     # a named range is found under its table name only if the address writer and reader agree on how that name is quoted (rule shared with C19)
     from .c19 import r19b, r19f
     r19b(ctx)
@@ -944,6 +1008,9 @@ SEEDS = [
     Seed("Manifest.del_full_path deletes every entry that starts with the path", "fault", "src/odfdo/manifest.py",
          "        file_entry = self._file_entry(full_path)\n        self.root.delete(file_entry)",
          "        self._file_entry(full_path)\n        xpath_query = (\n            \"//manifest:file-entry[starts-with(\"\n            f\"attribute::manifest:full-path, {xpath_string_literal(full_path)})]\"\n        )\n        for file_entry in self.xpath(xpath_query):\n            self.root.delete(file_entry)", "R14f"),
+    Seed("_get_table takes a name made of digits for an index", "fault", "src/odfdo/document.py",
+         "        if isinstance(table, int):\n            return self.body.get_table(position=table)  # type: ignore",
+         "        if isinstance(table, str) and table.strip().isdigit():\n            table = int(table)\n        if isinstance(table, int):\n            return self.body.get_table(position=table)  # type: ignore", "R14g"),
     Seed("make_xpath_query trims the keyword it files", "fault", _XQ, 'attributes["text:name"] = text_name', 'attributes["text:name"] = text_name.strip()', "R14d"),
     Seed("make_xpath_query converts the value with str() first", "neutral", _XQ,
          '            query.append(f"[@{qname}={xpath_string_literal(value)}]")', '            shown = str(value)\n            query.append(f"[@{qname}={xpath_string_literal(shown)}]")'),
